@@ -4,7 +4,7 @@ namespace EV.Driver.C18
 open EV EV.Driver
 
 def fmr : Handler
-  | [n, h] =>
+  | _, [n, h] =>
     match n.toNat?, Hex.decode h with
     | some n, some bs =>
       if bs.length ≠ 32 * n then "bad-op" else
@@ -12,7 +12,7 @@ def fmr : Handler
       | some r => okHex r
       | none => "panic"
     | _, _ => "bad-op"
-  | _ => "bad-op"
+  | _, _ => "bad-op"
 
 def ops : List (String × Handler) := [("fmr", fmr)]
 end EV.Driver.C18
